@@ -42,6 +42,7 @@ import PS.Proofs.Enum.UFrame
 import PS.Proofs.Enum.UCompleteRun
 import PS.Proofs.Enum.UOrderCheck
 import PS.Proofs.Enum.UTotalCheck
+import PS.Proofs.Enum.UPrefix
 namespace PS.C12HS
 open PS PS.G
 
@@ -294,6 +295,16 @@ theorem C12_HS_U_filter_sorted (E : UHS.Env U π) (rank : UHS.UNT U → Nat) (Go
     (h : UHS.take E fuel k (UHS.St.empty E.G) [] = some (s', out, b)) :
     out.Pairwise (fun p q => ∀ kp kq, StartKey E p kp → StartKey E q kq → E.ops.lt kq kp = false) :=
   take_sorted R fuel k s' out b h
+
+/-- **prefix completeness with a filter** (every fuel, every prefix of the run): once a program `q` has been
+    yielded, every member all of whose sub-programs are accepted and whose key is strictly better than the
+    key of `q` has been yielded -/
+theorem C12_HS_U_filter_prefix_complete (E : UHS.Env U π) (rank : UHS.UNT U → Nat) (Good : π → Prop) (R : RHyp E rank Good)
+    (fuel k : Nat) (s' : UHS.St U π) (out : List Prog) (b : Bool)
+    (h : UHS.take E fuel k (UHS.St.empty E.G) [] = some (s', out, b)) (p q : Prog) (hq : q ∈ out) (kp kq : π)
+    (hkp : StartKey E p kp) (hkq : StartKey E q kq) (hlt : E.ops.lt kp kq = true)
+    (hcl : PS.HG.clean E.filter p = true) : p ∈ out :=
+  take_prefix_complete R fuel k s' out b h p q hq kp kq hkp hkq hlt hcl
 
 /-- **C12, termination with a filter, unambiguous-grammar machine**: with enough fuel the generator stops;
     the pop loop skips every rejected program at most once per non-terminal (a program taken out of a heap
